@@ -3,6 +3,7 @@ from . import core, legacy_common as L
 
 PROP = "C09"
 DRIVER = "drv_legacy"
+WATCHDOG = 900  # seconds per scenario: the chained exhaustive scenarios have > 10^4 lines; the shared machine is often overloaded
 LEAN_MODULES = ["MesaModel.Props.C09"]
 THEOREMS = [
     "Mesa.Legacy.C09_orth_spec",
@@ -11,9 +12,12 @@ THEOREMS = [
     "Mesa.Legacy.C09_fast_eq_slow",
     "Mesa.Legacy.C09_cache_transparent",
     "Mesa.Legacy.C09_hex_cache_transparent",
+    "Mesa.Legacy.C09_cache_key_is_every_argument",
     "Mesa.Legacy.C09_hex_spec",
+    "Mesa.Legacy.C09_hex_touching_symmetric",
     "Mesa.Legacy.C09_hex_cells_in_grid",
     "Mesa.Legacy.C09_hex_tables_are_hexagonal",
+    "Mesa.Legacy.C09_cached_neighbors_with_moves",
     "Mesa.Legacy.C09_hex_get_neighbors_exact",
     "Mesa.Legacy.C09_neighbors_spec",
     "Mesa.Legacy.C09_get_neighbors_exact",
@@ -30,7 +34,7 @@ TRUSTED = [
     "networkx: Graph.neighbors(v) lists neighbours in edge-insertion order; single_source_shortest_path_length(G, v, r) has exactly "
     "the nodes within r hops as keys (theorem C09_network_spec takes this as its hypothesis; the driver uses a proved expansion)",
     "numpy fancy indexing in get_neighborhood_mask (modelled: mask[c] = c in neighbourhood)",
-    "the hex offset tables are regenerated from mesa/space.py on every run (Gen/LegacyTables.lean) and the table theorems re-checked",
+    "the hex offset tables, the parameter lists of the two get_neighborhood functions and their cache-key tuples are regenerated from mesa/space.py on every run (Gen/LegacyTables.lean; AST cross-checked by probing) and the table theorems re-checked",
 ]
 ASSUMPTIONS = ["hexagonal tori have an even width (the property's quantifier); hex centres outside the grid are modelled and tied but not judged by the oracle",
                "NetworkGrid graphs are simple undirected graphs on nodes 0..n-1"]
